@@ -47,6 +47,20 @@ def main():
         shutil.copy(demo, os.path.join(out, "demo.py"))
     if os.path.exists(os.path.join(wt, "SEED.md")):
         shutil.copy(os.path.join(wt, "SEED.md"), os.path.join(out, "SEED.md"))
+    # bring the worktree up to /repo's current HEAD (fix commits may have landed since the seed
+    # was written), keeping the seeded change on top
+    patch0 = os.path.join(out, "patch.diff")
+    head = sh("git -C /repo rev-parse HEAD")[1].strip()
+    if sh("git rev-parse HEAD", cwd=wt)[1].strip() != head:
+        if sh("git apply -R %s" % patch0, cwd=wt)[0] == 0:
+            old = sh("git rev-parse HEAD", cwd=wt)[1].strip()
+            sh("git checkout -q --detach %s" % head, cwd=wt)
+            if sh("git apply %s" % patch0, cwd=wt)[0] != 0:
+                print("patch does not apply on current HEAD; staying on", old)
+                sh("git checkout -q --detach %s" % old, cwd=wt)
+                sh("git apply %s" % patch0, cwd=wt)
+            else:
+                print("rebased seed onto", head[:8])
     home = "/tmp/brzhome-val-%s-%s" % (pid, name)
     os.makedirs(home, exist_ok=True)
     env = {"PYTHONPATH": wt, "BRZ_HOME": home, "HOME": home, "BRZ_EMAIL": "t <t@example.com>"}
@@ -84,6 +98,17 @@ def main():
                      "violation_lines": vio[:12], "wall_s": round(time.time() - t0), "tail": o_c[-600:]}
     print("check: exit=%d %s" % (rc_c, vio[:4]))
     meta["caught"] = rc_c == 1
+    meta["base_commit"] = sh("git rev-parse --short HEAD", cwd=wt)[1].strip()
+    try:
+        sys.path.insert(0, V)
+        from mc.evidence import load_known
+        fixed = {k["signature"] for k in load_known() if k["property"] == pid and k.get("status") == "fixed"}
+        sigs = [l.split("signature:", 1)[1].strip() for l in vio if "signature:" in l]
+        if sigs and all(s_ in fixed for s_ in sigs) and meta["base_commit"] != head[:len(meta["base_commit"])]:
+            meta["caught"] = False
+            meta["note"] = "only signatures of defects already fixed in /repo fired (worktree predates the fix)"
+    except Exception as e:  # noqa
+        meta["note"] = "could not cross-check fixed signatures: %r" % (e,)
     meta["valid_seed"] = (rc_with != 0 and rc_without == 0 and (not suite or meta["suite"]["exit"] == 0))
     seedmd = os.path.join(out, "SEED.md")
     meta["needs"] = open(seedmd).read()[:3000] if os.path.exists(seedmd) else ""
